@@ -123,8 +123,21 @@ def rule_c15_r2(model: Model) -> RuleResult:
                 text, pos = nz.literal(a.ast, a)
                 if text in ('TRUTHY(ELEM(self.cls_info.fields).init)', 'TRUTHY(ELEM(self.fields).init)') and a.edge('T' if pos else 'F') and cfg.edge_dominates(a, 'T' if pos else 'F', n):
                     guard = True
-        if ok_v and guard:
+        # ... and by nothing else: every init field is readable (an excluded field is only left out of what is *written*)
+        others = []
+        for (cid, lb) in cfg.conditions_of(n):
+            cn = cfg.nodes[cid]
+            if cn.kind == 'cond' and cn.ast is not None:
+                text, pos = nz.literal(cn.ast, cn)
+                if text not in ('TRUTHY(ELEM(self.cls_info.fields).init)', 'TRUTHY(ELEM(self.fields).init)'):
+                    others.append(('' if pos == (lb == 'T') else 'not ') + text)
+        if ok_v and guard and not others:
             r.ok()
+        elif others and ok_v and guard:
+            r.fail(f.qualname, f"field_map[{k}] only when {others[0][:80]}", f.loc(n.ast),
+                   "input names of some init fields are left out of the name map: data that names such a field (e.g. an exclude=True "
+                   "field, which is only meant to be left out of the *output*) is refused as an unknown key, or silently dropped with "
+                   "allow_extra")
         else:
             r.fail(f.qualname, f"field_map[{k}] = {v} (init-guarded: {guard})", f.loc(n.ast),
                    "a name is bound to the wrong field index, or names of init=False fields are accepted as input keys")
